@@ -1519,6 +1519,11 @@ int XMLDateTime::parseInt(const XMLSize_t start, const XMLSize_t end) const
         if (fBuffer[i] < chDigit_0 || fBuffer[i] > chDigit_9)
             ThrowXMLwithMemMgr(NumberFormatException, XMLExcepts::XMLNUM_Inv_chars, fMemoryManager);
 
+        //  The value must fit an int: refuse anything that would exceed
+        //  2147483647 instead of silently wrapping around.
+        if (retVal > 214748364u || (retVal == 214748364u && fBuffer[i] > chDigit_7))
+            ThrowXMLwithMemMgr(NumberFormatException, XMLExcepts::XMLNUM_Inv_chars, fMemoryManager);
+
         retVal = (retVal * 10) + (unsigned int) (fBuffer[i] - chDigit_0);
     }
 
